@@ -172,6 +172,8 @@ def quiescence_oracle(lines, uact=()):
             dropped += 1
         elif w[0] in ("LS", "LN", "LB") and "ev=1" in res and res.endswith("bytes=0"):
             dropped += 1
+        elif w[0] == "R" and res.startswith("id=") and "ret=" not in res and res.endswith("bytes=0") and "ev=1" in res:
+            dropped += 1      # a stalled static macro that was refused when resumed (top level or injected inside a poll)
 
     for (w, res, evs) in rec["ops"]:
         for e in bg.flatten_events(evs):
@@ -181,8 +183,6 @@ def quiescence_oracle(lines, uact=()):
             elif e.startswith("n:dropped:"):
                 reported += int(e.split(":")[2])
         front(w, res)
-        if w[0] == "R" and int(w[1]) not in uact and res.startswith("id=") and "ret=" not in res and res.endswith("bytes=0") and "ev=1" in res:
-            dropped += 1      # a stalled static macro that was refused when resumed
         if w[0] == "Q":
             before = hist[-260:]
             drained = sum(1 for w2 in before if w2[0] == "K" and len(w2) > 1 and w2[1].isdigit() and int(w2[1]) >= 2000000) >= 10 \
